@@ -47,7 +47,9 @@ def configs(quick):
     ]
     if not quick:
         c += [dict(name="timedep_current_adaptive", dev="bar_hole", timedep_current=True, adaptive=True, T=0.2),
-              dict(name="screening_fixed", dev="union", lam=0.5, screening=True, adaptive=False, T=0.06)]
+              dict(name="screening_fixed", dev="union", lam=0.5, screening=True, adaptive=False, T=0.06),
+              # a mesh with more than a thousand sites: the screening kernel must not split its sums by thread count
+              dict(name="screening_large_mesh", dev="ring", mel=0.22, lam=0.5, screening=True, adaptive=False, T=0.02)]
     return c
 
 
